@@ -517,49 +517,29 @@ static std::string oclass(const std::string &r) // outcome class (vacuity guard)
 }
 
 // The backends must be built from the same source state: bin/vcheck builds the three libraries one after the other (minutes),
-// and /repo may be edited in between.  Newest library source file newer than the oldest libsymengine.a => inconsistent builds.
-static time_t newest_source(const std::string &dir, std::string &which)
-{
-    time_t best = 0;
-    DIR *d = opendir(dir.c_str());
-    if (!d)
-        return 0;
-    while (struct dirent *e = readdir(d)) {
-        std::string n = e->d_name;
-        if (n == "." || n == ".." || n == "tests" || n == "utilities")
-            continue;
-        std::string p = dir + "/" + n;
-        struct stat st;
-        if (stat(p.c_str(), &st) != 0)
-            continue;
-        if (S_ISDIR(st.st_mode)) {
-            std::string w;
-            time_t t = newest_source(p, w);
-            if (t > best)
-                best = t, which = w;
-        } else if (n.size() > 2 && (n.substr(n.size() - 2) == ".h" || (n.size() > 4 && n.substr(n.size() - 4) == ".cpp") || n.substr(n.size() - 2) == ".y")) {
-            if (st.st_mtime > best)
-                best = st.st_mtime, which = p;
-        }
-    }
-    closedir(d);
-    return best;
-}
+// and /repo may be edited in between.  bin/vcheck writes a digest of the library sources (names, sizes, mtimes) next to each
+// library just before building it; the digests of all configurations in this run must be equal.  (A first version compared
+// file times with the archives' and wrongly refused to run after an edit of a file that only one backend compiles,
+// e.g. mp_boost.cpp, because the other archives are then legitimately not rewritten.)
 static bool builds_consistent(std::string &why)
 {
-    const char *repo = getenv("VERIF_REPO");
-    std::string src;
-    time_t ts = newest_source(std::string(repo ? repo : "/repo") + "/symengine", src);
+    std::string first, firstlib;
     for (auto &e : EXES) {
         size_t p = e.rfind("/drv/");
         if (p == std::string::npos)
             continue;
-        std::string lib = e.substr(0, p) + "/lib/symengine/libsymengine.a";
-        struct stat st;
-        if (stat(lib.c_str(), &st) != 0)
-            continue;
-        if (ts > st.st_mtime) {
-            why = src + " is newer than " + lib;
+        std::string f = e.substr(0, p) + "/lib/.source_state";
+        std::ifstream in(f);
+        std::string st;
+        std::getline(in, st);
+        if (st.empty()) {
+            why = f + " missing (library not built by this bin/vcheck)";
+            return false;
+        }
+        if (first.empty())
+            first = st, firstlib = f;
+        else if (st != first) {
+            why = f + " differs from " + firstlib;
             return false;
         }
     }
